@@ -481,6 +481,7 @@ func classifyFormatter(p *load.Program, et *ErrType, sh *TypeShape) {
 		return
 	}
 	region := detailRegion(fn, pp)
+	retIn, retOut := map[string]bool{}, map[string]bool{}
 	// closures called with the printer captured (withContext) are treated as part of the region they are created in
 	var scan func(f *ssa.Function, isPrinter func(ssa.Value) bool, inDetail func(*ssa.BasicBlock) bool)
 	scan = func(f *ssa.Function, isPrinter func(ssa.Value) bool, inDetail func(*ssa.BasicBlock) bool) {
@@ -561,10 +562,23 @@ func classifyFormatter(p *load.Program, et *ErrType, sh *TypeShape) {
 				if f != fn {
 					return
 				}
-				if inDetail(x.Block()) {
-					sh.RetInDetail = true
-				}
 				v := x.Results[0]
+				// class of the returned value, recorded separately for returns inside and outside the p.Detail()
+				// region: the two renderings take different decisions only when the classes differ
+				// (`if !p.Detail() { return e.cause }; ...; return e.cause` is the same decision twice)
+				cls := "other"
+				if sx.IsNil(v) {
+					cls = "nil"
+				} else if pth := recvFieldPath(fn, v); len(pth) == 1 && sh.CauseField != nil && pth[0] == sh.CauseField {
+					cls = "cause"
+				} else if _, isPhi := v.(*ssa.Phi); isPhi {
+					cls = "phi@" + p.Pos(x.Pos())
+				}
+				if inDetail(x.Block()) {
+					retIn[cls] = true
+				} else {
+					retOut[cls] = true
+				}
 				switch {
 				case sx.IsNil(v):
 					sh.RetNil = true
@@ -590,6 +604,15 @@ func classifyFormatter(p *load.Program, et *ErrType, sh *TypeShape) {
 		})
 	}
 	scan(fn, func(v ssa.Value) bool { return sx.Unspill(v) == ssa.Value(pp) }, func(b *ssa.BasicBlock) bool { return region[b] })
+	if len(retIn) > 0 {
+		same := len(retIn) == len(retOut)
+		for k := range retIn {
+			if !retOut[k] {
+				same = false
+			}
+		}
+		sh.RetInDetail = !same
+	}
 }
 
 func isAllocOf(b ssa.Value, v ssa.Value) bool {
